@@ -74,6 +74,11 @@ def reduce (d : Dec) : Dec :=
 
 def isOne (d : Dec) : Bool := cmp d one == .eq
 
+/-- `decQuadToIntegralValue(…, DEC_ROUND_DOWN)`: a number with a non-negative exponent is
+returned as it is; otherwise the fraction digits are dropped and the exponent becomes 0. -/
+def trunc (d : Dec) : Dec :=
+  if d.exp ≥ 0 then d else ⟨d.neg, d.coeff / 10 ^ (-d.exp).toNat, 0⟩
+
 /-- The number as an integer when it has no fractional part. -/
 def toInt? (d : Dec) : Option Int :=
   if d.exp ≥ 0 then some (d.scoeff * (10 : Int) ^ d.exp.toNat)
